@@ -142,6 +142,19 @@ def mono_values(Xp, Am, bv, alpha):
     return v
 
 
+def mono_mag(Xp, Am, bv, alpha):
+    """Magnitude of the monomial's evaluation: x_i replaced by sum_j |A_ij||X_j| + |b_i| (the kernel computes x from the vertex
+    coordinates, so a value that cancels to zero - a point on a coordinate plane - still carries rounding at this magnitude)."""
+    A = np.abs(np.array([[float(v) for v in row] for row in Am]))
+    b = np.abs(np.array([float(v) for v in bv]))
+    x = np.abs(Xp) @ A.T + b
+    v = np.ones(Xp.shape[0])
+    for i, a in enumerate(alpha):
+        if a:
+            v = v * x[:, i] ** a
+    return v
+
+
 # ---------------------------------------------------------------------------------------
 # cases
 # ---------------------------------------------------------------------------------------
@@ -339,7 +352,7 @@ def evaluate_case(case, wd):
                     Xq, wq = own_rule(cell, min(2 * deg + 2, 30), "default")
                     vals = mono_values(Xq, Am, bv, t["alpha"])
                     expected += float(ex)
-                    scale += float(np.sum(np.abs(wq * vals)) * detA)
+                    scale += float(np.sum(np.abs(wq) * mono_mag(Xq, Am, bv, t["alpha"])) * detA)
                     exact_tot += ex
                     rules.add(("estimated", deg))
                     nontrivial = True
@@ -349,7 +362,7 @@ def evaluate_case(case, wd):
                 vals = mono_values(Xq, Am, bv, t["alpha"])
                 s = float(np.sum(wq * vals) * detA)
                 expected += s
-                scale += float(np.sum(np.abs(wq * vals)) * detA)
+                scale += float(np.sum(np.abs(wq) * mono_mag(Xq, Am, bv, t["alpha"])) * detA)
                 exact_tot += ex
                 if t["scheme"] == "vertex":
                     all_exact = all_exact and deg <= 1
@@ -370,12 +383,12 @@ def evaluate_case(case, wd):
             fv = w * w if f["q_shape"] == "f*f*m" else w
             vals = mono_values(Xq, Am, bv, f["alpha"]) * fv
             expected = float(np.sum(wq * vals) * detA)
-            scale = float(np.sum(np.abs(wq * vals)) * detA)
+            scale = float(np.sum(np.abs(wq) * mono_mag(Xq, Am, bv, f["alpha"]) * np.abs(fv)) * detA)
             for t in f["terms"]:  # each further integral with its own rule
                 Xt, wt = own_rule(cell, t["q"], t["scheme"])
                 vt = mono_values(Xt, Am, bv, t["alpha"])
                 expected += float(np.sum(wt * vt) * detA)
-                scale += float(np.sum(np.abs(wt * vt)) * detA)
+                scale += float(np.sum(np.abs(wt) * mono_mag(Xt, Am, bv, t["alpha"])) * detA)
             nontrivial = True
             classes.append("quadrature-element-next-to-own-rules")
         elif f["kind"] in ("qelement", "cquad"):
@@ -386,7 +399,7 @@ def evaluate_case(case, wd):
             w = inputs.f32(rng.uniform(-2, 2, size=len(wq)))
             vals = mono_values(Xq, Am, bv, f["alpha"]) * w
             expected = float(np.sum(wq * vals) * detA)
-            scale = float(np.sum(np.abs(wq * vals)) * detA)
+            scale = float(np.sum(np.abs(wq) * mono_mag(Xq, Am, bv, f["alpha"]) * np.abs(w)) * detA)
             nontrivial = nontrivial or sum(f["alpha"]) >= 1
         else:
             # f0 = X^beta, f1 = X^gamma interpolated exactly (nodal elements); integrand polynomial -> exact
@@ -403,11 +416,11 @@ def evaluate_case(case, wd):
             exact = float(exact_integral(cell, Am, bv, f["alpha"], ref_factor=rf))
             expected = exact
             Xq, wq = own_rule(cell, min(sum(f["alpha"]) + sum(rf) + 2, 30), "default")
-            vals = mono_values(Xq, Am, bv, f["alpha"])
+            vals = mono_mag(Xq, Am, bv, f["alpha"])
             for i, a in enumerate(rf):
                 if a:
-                    vals = vals * Xq[:, i] ** a
-            scale = float(np.sum(np.abs(wq * vals)) * detA)
+                    vals = vals * np.abs(Xq[:, i]) ** a
+            scale = float(np.sum(np.abs(wq) * vals) * detA)
             nontrivial = True
             classes.append("no-metadata")
         # pack by descriptor
